@@ -36,7 +36,7 @@ type Case struct {
 }
 
 var spinCores = []string{"loop", "loop_cond", "cfor", "cfor_nocond", "forin_nested", "forin_map", "recursion", "loop_in_switch", "loop_nested_break", "loop_continue", "fanout_range", "fanout_recv", "fanout_recv2", "pipeline_relay"}
-var blockCores = []string{"recv", "send", "recv2", "range_chan", "recv_stmt"}
+var blockCores = []string{"recv", "send", "recv2", "range_chan", "recv_stmt", "drain_two", "drain_three"}
 var wrappers = []string{"fn0", "fn2", "fn4", "fn5", "fnvar", "anon", "go_join", "go_join5", "try_body", "catch", "finally", "coalesce_l", "coalesce_r", "ternary", "deferred", "list_elem", "go_arg", "module", "if", "switch_case", "forin_once", "callback"}
 
 func gen(t *rapid.T) Case {
@@ -101,6 +101,11 @@ func coreSrc(core string) string {
 		return "wch = make(chan int64, 2)\ngo func() {\n for {\n  wch <- 1\n }\n}()\ngo func() {\n for {\n  wv, wok = <-wch\n  tick()\n }\n}()\nfor wv in wch {\n tick()\n}"
 	case "pipeline_relay":
 		return "wa = make(chan int64, 2)\nwb = make(chan int64, 2)\ngo func() {\n for {\n  wa <- 1\n }\n}()\ngo func() {\n for {\n  wb <- <-wa\n }\n}()\nfor wv in wb {\n tick()\n}"
+	case "drain_two":
+		// consumers with EMPTY bodies: nothing but the loop itself can notice the cancellation
+		return "wch = make(chan int64, 3)\ngo func() {\n for {\n  wch <- 1\n }\n}()\ngo func() {\n for wv in wch {\n }\n}()\nentered()\nfor wv in wch {\n}"
+	case "drain_three":
+		return "wch = make(chan int64, 2)\ngo func() {\n for {\n  wch <- 1\n }\n}()\ngo func() {\n for wv in wch {\n }\n}()\ngo func() {\n for wv in wch {\n }\n}()\nentered()\nfor wv in wch {\n}"
 	case "recv":
 		return "entered()\nbv = <-never"
 	case "send":
